@@ -27,10 +27,7 @@ def htok(bs) -> str:
 
 # ----------------------------------------------------------------------------- recording clients
 
-import builtins, getpass as _getpass  # noqa: E402
-PROMPT_USER, PROMPT_PW = "prompted-user", "prompted"
-builtins.input = lambda prompt="": PROMPT_USER          # ardRequestCredentials / never block on a prompt
-_getpass.getpass = lambda prompt="": PROMPT_PW
+# (the prompts never block: core.py replaces getpass.getpass / input by stubs BEFORE vncdotool is imported; PROMPT_USER / PROMPT_PW)
 ARD_TOKEN = b"ARD"
 
 
